@@ -411,8 +411,9 @@ def finalVerdict (inp impl : Json) : Verdict :=
     let complete := if closer == "respEnd" || closer == "respEndPanic" then
         (atc.map (·.hasResp)).getD false && HandoffGlue.trailersOK declared hdrEnd trailerAt names
       else true
-    -- finding F28: an operation ended early (request side / cancellation) after the response
-    -- started is written to when the handler finishes: only the trailers differ
+    -- finding F28 (repaired in repository commit cdc69f7): an operation ended early (request
+    -- side / cancellation) after the response started was written to when the handler finished:
+    -- only the trailers differ
     let f28 := once && !final && (closer == "reqEndErr" || closer == "cancel") &&
       (atc.map (·.hasResp)).getD false && events == eventsFin &&
       (atc.map (fun a => (a.status, a.header))) == (fin.map (fun a => (a.status, a.header)))
@@ -426,7 +427,7 @@ def finalVerdict (inp impl : Json) : Verdict :=
         (if bool (field impl "gateTimeout") then ",gate-timeout" else ""),
       why :=
         if holds then (if agree then "" else s!"model: at completion {showSnap mAt.head?}, at the end {showSnap mFin.head?}; implementation: {showSnap atc} / {showSnap fin}")
-        else if f28 then s!"F28: the trace handed over when the operation was ended early ({closer}) is written to afterwards: trailers {(atc.map (·.trailer)).getD []} at completion, {(fin.map (·.trailer)).getD []} at the end"
+        else if f28 then s!"finding F28 (fixed in cdc69f7) is back: the trace handed over when the operation was ended early ({closer}) is written to afterwards: trailers {(atc.map (·.trailer)).getD []} at completion, {(fin.map (·.trailer)).getD []} at the end"
         else if !once then s!"{completions} deliveries, events {events}: the operation must hand over exactly one trace, completed by its last event"
         else if !final then s!"the trace handed over is not final: at completion {showSnap atc} events {events}, at the end {showSnap fin} events {eventsFin}"
         else if !waiterOK then s!"waiter ({wantW}): Await returned '{gotW}' with {showSnap wake}, completed was {showSnap atc}, at the end {showSnap fin} (waiter's view {showSnap wfin})"
